@@ -47,7 +47,7 @@ class C03(Check):
         ],
         "stub": ["FFTW planning rigor (MEASURE -> ESTIMATE)"],
     }
-    required_probes = ["zero_after_big", "two_solvers_interleaved", "vector_solve", "impulse_at_corner", "inplace", "non_square", "fft_unfriendly_size", "view_transposed", "view_interleaved"]
+    required_probes = ["zero_after_big", "two_solvers_interleaved", "vector_solve", "impulse_at_corner", "inplace", "non_square", "fft_unfriendly_size", "view_transposed", "view_interleaved", "large_grid_sparse_rhs"]
     tiers = {
         "quick": {"runs": 480, "batch": 6, "timeout": 240},
         "thorough": {"runs": 20000, "batch": 10, "timeout": 600},
@@ -71,6 +71,11 @@ class C03(Check):
         if tier == "thorough" and rng.random() < 0.15:
             hi = 32 if dim == 2 else 12
         shape = [rng.randint(2, hi) for _ in range(dim)]
+        if rng.random() < 0.1:
+            # production-sized grids (size-dependent paths): checked with sparse right-hand sides only
+            if dim == 2:
+                return [rng.choice([48, 64, 81, 96, 100, 128]), rng.choice([48, 64, 80, 96, 128, 130])]
+            return [rng.choice([16, 24, 27, 32]), rng.choice([16, 20, 32, 40]), rng.choice([24, 32, 33, 48])]
         if rng.random() < 0.3:
             # sizes whose doubled length is not 2/3/5/7-smooth (FFT "fast length" paths), one axis at a
             # time so that the dense model stays small
@@ -84,6 +89,8 @@ class C03(Check):
 
     def _draw_rhs(self, rng, shape):
         kind = prng.weighted_choice(rng, RHS_KINDS)
+        if int(np.prod(shape)) > 2000 and kind not in ("impulse", "zero"):
+            kind = "impulse"
         r = {"kind": kind, "sub": prng.sub_seed(rng)}
         if kind == "impulse":
             cells = []
@@ -92,7 +99,7 @@ class C03(Check):
                     cell = [rng.choice([0, n - 1]) for n in shape]  # corners
                 else:
                     cell = [rng.randrange(n) for n in shape]
-                cells.append({"cell": cell, "val": rng.choice([1.0, -1.0, 2.5, 1e3, -3e-4])})
+                cells.append({"cell": cell, "val": rng.choice([1.0, -1.0, 2.5, 1e3, -3e-4, 1e6])})
             r["cells"] = cells
         return r
 
@@ -129,7 +136,7 @@ class C03(Check):
                         "solver": s,
                         "kind": op["kind"],
                         "view": "plain",
-                        "rhs": [{"kind": rng.choice(["zero", "tiny", "impulse"]), "sub": prng.sub_seed(rng), "cells": [{"cell": [0] * dim, "val": 1.0}]} for _ in op["rhs"]],
+                        "rhs": [{"kind": rng.choice(["zero", "tiny", "impulse"]) if int(np.prod(shape)) <= 2000 else rng.choice(["zero", "impulse"]), "sub": prng.sub_seed(rng), "cells": [{"cell": [0] * dim, "val": 1.0}]} for _ in op["rhs"]],
                     }
                 )
         return {"dim": dim, "precision": precision, "solvers": solvers, "ops": ops}
@@ -198,6 +205,8 @@ class C03(Check):
             models.append(GreenModel(shape, s["x_range"], real_t))
             if len(set(shape)) > 1:
                 res.probe("non_square")
+            if int(np.prod(shape)) > 2000:
+                res.probe("large_grid_sparse_rhs")
             if any(n % 2 for n in shape):
                 res.probe("odd_size")
             if any(n in (11, 13, 17, 19, 23, 26, 29, 31, 34, 37, 41, 43, 47) for n in shape):
